@@ -15,6 +15,8 @@ import (
 	"strconv"
 	"strings"
 
+	"github.com/dave/jennifer/jen"
+
 	"verif/internal/impcheck"
 	"verif/internal/recipe"
 	"verif/internal/stdpkg"
@@ -38,6 +40,67 @@ type Scenario struct {
 	// LateBody (staged scenarios whose settings are all early): the last LateBody body statements are added
 	// to the File only after it has been rendered once.
 	LateBody int `json:"latebody,omitempty"`
+	// Sibling: the caller keeps ONE names table (a Go map object) for all its Files. Before this File is
+	// built another File gets that same map object through ImportNames as its first hint, is then given dot
+	// aliases, aliases and names of its own for this scenario's paths, and is rendered. This File's
+	// ImportNames calls receive the same map object (refilled). What the sibling was told is its own business.
+	Sibling bool `json:"sibling,omitempty"`
+}
+
+// prelude does what happens in the process before the scenario's File is built (see Scenario.Sibling) and
+// builds — never renders, never adds to anything — look-alike references: for every dot in a referenced path
+// P = Q + "." + R, a Qual(Q, R + "." + name) for the names the body uses with P. It returns the function
+// that restores the harness' switches.
+func (sc *Scenario) prelude() func() {
+	for _, n := range sc.File.Body {
+		recipe.Walk(n, func(x *recipe.Node) {
+			if x == nil {
+				return
+			}
+			for i := range x.Calls {
+				c := &x.Calls[i]
+				if c.Fn != "Qual" || len(c.Str) < 2 {
+					continue
+				}
+				path, name := string(c.Str[0]), string(c.Str[1])
+				for j := 0; j < len(path); j++ {
+					if path[j] == '.' && j > 0 && j+1 < len(path) {
+						_ = jen.Qual(path[:j], path[j+1:]+"."+name)
+					}
+				}
+				// and the other way round: a path that continues this one behind a dot
+				_ = jen.Qual(path+"."+name, name)
+			}
+		})
+	}
+	if !sc.Sibling {
+		return func() {}
+	}
+	table := map[string]string{}
+	recipe.CallerTable = table
+	sib := jen.NewFile("sibling")
+	for i := range sc.File.Ops {
+		if sc.File.Ops[i].Op == "ImportNames" {
+			recipe.ApplyFileOp(sib, &sc.File.Ops[i])
+			break
+		}
+	}
+	for i, p := range sc.Paths {
+		if p == "" || p == "C" {
+			continue
+		}
+		switch i % 3 {
+		case 0:
+			sib.ImportAlias(p, ".")
+		case 1:
+			sib.ImportName(p, "zzsib"+strconv.Itoa(i))
+		default:
+			sib.ImportAlias(p, "zzsibal"+strconv.Itoa(i))
+		}
+		sib.Var().Id("_").Op("=").Qual(p, "X"+strconv.Itoa(i))
+	}
+	_ = sib.Render(&bytes.Buffer{})
+	return func() { recipe.CallerTable = nil }
 }
 
 // StagedModel is the model of a staged scenario (see Scenario.Split).
@@ -80,6 +143,7 @@ func (sc *Scenario) RenderStaged() ([]byte, error) {
 
 // renderStaged also returns the outputs of the fragment previews.
 func (sc *Scenario) renderStaged() ([]byte, []string, error) {
+	defer sc.prelude()()
 	k := sc.Split - 1
 	if k > len(sc.File.Ops) {
 		k = len(sc.File.Ops)
@@ -101,7 +165,17 @@ func (sc *Scenario) renderStaged() ([]byte, []string, error) {
 			func() {
 				defer func() { _ = recover() }()
 				buf := &bytes.Buffer{}
-				if (&recipe.Builder{}).Stmt(n).RenderWithFile(buf, f) == nil {
+				st := (&recipe.Builder{}).Stmt(n)
+				if k%2 == 1 {
+					// every other fragment is a group (the one a ...Func callback was handed) holding the statement
+					var grp *jen.Group
+					jen.CustomFunc(jen.Options{Multi: true}, func(g *jen.Group) { grp = g; g.Add(st) })
+					if grp.RenderWithFile(buf, f) == nil {
+						previews = append(previews, buf.String())
+					}
+					return
+				}
+				if st.RenderWithFile(buf, f) == nil {
 					previews = append(previews, buf.String())
 				}
 			}()
@@ -220,6 +294,7 @@ type Outcome struct {
 
 // Render builds the scenario's File with the baseline builder and renders it.
 func (sc *Scenario) Render() ([]byte, error) {
+	defer sc.prelude()()
 	return recipe.RenderFile(recipe.BuildFile(&sc.File))
 }
 
